@@ -26,3 +26,25 @@ def getNatList (j : Json) : Except String (List Nat) := do
 def field (j : Json) (k : String) : Except String Json := j.getObjVal? k
 
 end SciVerif.Drive
+
+namespace SciVerif.Drive
+open Lean
+
+/-- One JSON request per input line, one JSON answer per output line:
+    `{"ok": …}` or `{"error": "…"}`. -/
+partial def serveLoop (h : Json → Except String Json) (hin hout : IO.FS.Stream) : IO Unit := do
+  let line ← hin.getLine
+  if line.isEmpty then return ()
+  let out := match Json.parse line with
+    | .error e => Json.mkObj [("error", Json.str s!"parse: {e}")]
+    | .ok j => match h j with
+      | .ok r => Json.mkObj [("ok", r)]
+      | .error e => Json.mkObj [("error", Json.str e)]
+  hout.putStrLn out.compress
+  hout.flush
+  serveLoop h hin hout
+
+def serve (h : Json → Except String Json) : IO Unit := do
+  serveLoop h (← IO.getStdin) (← IO.getStdout)
+
+end SciVerif.Drive
